@@ -71,7 +71,7 @@ def gen_env(r):
     return {"clock": [r.range(0, 4260000000), r.pick([0, 0, 1, 59, 3600, 86399, 40000000])],
             "tz": r.pick(TZS), "mtime": r.range(1, 4000000000), "heap": r.u64(), "pid": r.range(2, 4000000),
             "tmpname": "".join(r.pick("abcdefghijklmnopqrstuvwxyzABCDEFGHIJKLMNOPQRSTUVWXYZ0123456789") for _ in range(6)),
-            "stack": r.range(0, 4000),
+            "stack": r.pick([r.range(0, 4000), r.range(0, 120000), r.range(60000, 250000)]),   # bytes of environment: moves the stack by up to 250 KB
             "envvars": [r.pick(["/root", "/home/u%d" % r.below(100), "/nonexistent"]), r.pick(["root", "builder", "u%d" % r.below(100)]),
                         r.pick(["C", "C.UTF-8", "en_US.UTF-8", "POSIX"]), str(r.range(20, 300)), r.pick(["dumb", "xterm-256color", "vt100"])]}
 
@@ -80,7 +80,7 @@ def env_vars(e, sdir, stats):
     ev = e.get("envvars") or ["/nonexistent", "root", "C", "80", "dumb"]
     v = {"PATH": "/usr/bin:/bin", "LANG": ev[2], "LC_ALL": ev[2], "HOME": ev[0], "USER": ev[1], "LOGNAME": ev[1], "COLUMNS": ev[3], "TERM": ev[4], "LD_PRELOAD": os.path.join(sdir, "libenvsim.so"),
          "ENVSIM_SEED": str(e["heap"]), "ENVSIM_EPOCH": str(e["clock"][0]), "ENVSIM_TICK": str(e["clock"][1]), "TZ": e["tz"],
-         "ENVSIM_PID": str(e["pid"]), "ENVSIM_TMPTAG": e["tmpname"], "ENVSIM_PAD": "x" * e["stack"]}
+         "ENVSIM_PID": str(e["pid"]), "ENVSIM_TMPTAG": e["tmpname"], "ENVSIM_PAD": "x" * min(e["stack"], 125000), "ENVSIM_PAD2": "y" * max(0, e["stack"] - 125000)}
     if stats:
         v["ENVSIM_STATS"] = stats
     return v
@@ -157,7 +157,7 @@ def gen_constexpr_file(r):
     out = []
     n = r.range(4, 14)
     for i in range(n):
-        k = r.below(6)
+        k = r.below(7)
         if k == 0:
             e = gen_expr(r, r.range(1, 4), False).replace("(char)", "").replace("(unsigned char)", "").replace("(short)", "").replace("(unsigned short)", "")
             e = re.sub(r"\((int|unsigned|long|unsigned long|_Bool)\)", "", e)
@@ -171,6 +171,12 @@ def gen_constexpr_file(r):
         elif k == 4:
             out.append("struct B_%d { int a : %d; unsigned b : %d; long c : %d; } b_%d = { %s, %s, %s };" % (
                 i, r.range(1, 31), r.range(1, 32), r.range(1, 63), i, gen_expr(r, 1, False), gen_expr(r, 1, False), gen_expr(r, 1, False)))
+        elif k == 5 or r.below(3) == 0:
+            # literals of every arithmetic type as function-call arguments and in expressions inside a function body
+            lits = [r.pick(FLTLITS) for _ in range(3)] + [r.pick(["1.5L", "3.14159265358979323846L", "0x1p-3L", "1e-4900L", "2.5e300L", "0.1L"]), r.pick(INTLITS)]
+            out.append("int printf(const char *, ...);\nvoid take_%d(long double, double, float, long, char);\n"
+                       "long double calls_%d(int n) { printf(\"%%Lf %%f %%d\\n\", %s, (double)(%s), %s); take_%d(%s, %s, %s, %s, 'x'); return n ? %s + %s : %s; }" % (
+                           i, i, lits[3], lits[0], lits[4], i, lits[3], lits[1], lits[2], lits[4], lits[3], lits[0], r.pick(["1.0L", "2.0L", lits[3]])))
         else:
             out.append("int sw_%d(int x) { switch (x) { case %s: return 1; case 1000 ... 1000 + %d: return 2; default: return (int)(%s); } }" % (
                 i, r.pick(["-5", "0", "7", "'a'", "0x10"]), r.below(50), gen_expr(r, 2, r.below(2) == 0)))
